@@ -143,7 +143,11 @@ func runPrograms(a lib.Args, res *lib.Result, po progOpts) error {
 	}()
 	for _, acc := range prog.DefaultAccts {
 		if err := w.AdminCreateUser(acc); err != nil {
-			return err
+			l := w.Gws[0].Log.String()
+			if len(l) > 2000 {
+				l = l[len(l)-2000:]
+			}
+			return fmt.Errorf("%v\n--- gateway log tail ---\n%s", err, l)
 		}
 	}
 	classify := po.classify
